@@ -738,6 +738,26 @@ func (r *rpf) expr(e ast.Expr) *Val {
 	case *ast.CallExpr:
 		if ftv, ok := info.Types[x.Fun]; ok && ftv.IsType() && len(x.Args) == 1 {
 			v := r.expr(x.Args[0])
+			if bt, isB := ftv.Type.Underlying().(*types.Basic); isB && bt.Info()&types.IsFloat != 0 {
+				// integer / float -> float (float32 precision is not modelled: only float64 is folded)
+				if bt.Kind() != types.Float64 && bt.Kind() != types.UntypedFloat {
+					rpfFail("%s: conversion to %s outside the pure fragment", r.c.pos(x.Pos()), bt.Name())
+				}
+				switch v.K {
+				case VInt:
+					return &Val{K: VFloat, F: float64(v.I)}
+				case VFloat:
+					return v
+				}
+			}
+			if v.K == VFloat {
+				if bt, isB := ftv.Type.Underlying().(*types.Basic); isB && bt.Info()&types.IsInteger != 0 {
+					if v.F != v.F || v.F > 1e15 || v.F < -1e15 {
+						rpfFail("%s: float to integer conversion out of range", r.c.pos(x.Pos()))
+					}
+					return r.wrap(vint(int64(v.F)), ftv.Type) // truncation toward zero, as in Go
+				}
+			}
 			if v.K == VInt {
 				if bt, isB := ftv.Type.Underlying().(*types.Basic); isB && bt.Info()&types.IsString != 0 {
 					rpfFail("%s: integer to string conversion", r.c.pos(x.Pos()))
@@ -960,6 +980,11 @@ func (r *rpf) binop(op token.Token, a, b *Val, t types.Type, pos token.Pos) *Val
 			return &Val{K: VFloat, F: fa - fb}
 		case token.MUL:
 			return &Val{K: VFloat, F: fa * fb}
+		case token.QUO:
+			if fb == 0 {
+				rpfFail("%s: floating-point division by zero", r.c.pos(pos))
+			}
+			return &Val{K: VFloat, F: fa / fb}
 		case token.EQL:
 			return vbool(fa == fb)
 		case token.NEQ:
